@@ -82,8 +82,10 @@ where
             .merge_staged_commit(&self.provider, staged_commit)
             .map_err(|_e| Error::Message("Failed to merge staged commit".to_string()))?;
 
-        // Check if the local member was removed by this commit
-        if mls_group.own_leaf().is_none() {
+        // Check if the local member was removed by this commit. `own_leaf()` alone is not
+        // enough: when the same commit adds a member, the freed leaf index is reused at once
+        // and `own_leaf()` returns the newcomer's leaf; the group state tells the truth.
+        if !mls_group.is_active() || mls_group.own_leaf().is_none() {
             return self.handle_local_member_eviction(&group_id, event);
         }
 
